@@ -4,7 +4,8 @@ import FcpptModel.Spec.C07
 Driver for C07: histories over 3 raw_vector registers and 2 buffer registers sharing one heap.
 
 ```
-reset                                  end of the previous history (all destructors run), fresh registers
+reset                                  start of a history: fresh registers
+end                                    end of a history: all destructors run, ledger reported
 ctor r default | count n x | range fwd|inp LIST | il LIST | move s | buf b
 push r SRC | pop r | ins1 r pos SRC | insn r pos n SRC | insr r pos fwd|inp LIST
 era1 r pos | erar r l h | resize r n SRC | reserve r n | shrink r | clear r
@@ -43,6 +44,7 @@ def parseFwd (t : String) : Option Bool :=
 
 inductive Cmd where
   | reset
+  | endHist
   | op (o : Op)
   | cmp (r s : Nat)
   | obs (r : Nat)
@@ -51,6 +53,7 @@ inductive Cmd where
 def parseCmd (toks : List String) : Option Cmd :=
   match toks with
   | ["reset"] => some .reset
+  | ["end"] => some .endHist
   | ["ctor", r, "default"] => do let r ← parseReg NV r; pure (.op (.ctor r .dflt))
   | ["ctor", r, "count", n, x] => do let r ← parseReg NV r; let n ← n.toNat?; let x ← x.toInt?; pure (.op (.ctor r (.count n x)))
   | ["ctor", r, "range", f, l] => do let r ← parseReg NV r; let f ← parseFwd f; let l ← parseIntList l; pure (.op (.ctor r (.range l f)))
@@ -173,10 +176,11 @@ def readCharsLine (count : Nat) (xs : List Int) : String :=
 def handle (s : St × Spec.SSt) (toks : List String) : (St × Spec.SSt) × String :=
   match parseCmd toks with
   | none => (s, "bad-op")
-  | some .reset =>
+  | some .reset => ((St.init, Spec.SSt.init), "reset")
+  | some .endHist =>
     match finish s.1 NV NB with
-    | .ok h => ((St.init, Spec.SSt.init), s!"reset live={h.liveCount} alloc=ok")
-    | .error f => ((St.init, Spec.SSt.init), "reset fault:" ++ f.name)
+    | .ok h => ((St.init, Spec.SSt.init), s!"end live={h.liveCount} alloc=ok")
+    | .error f => ((St.init, Spec.SSt.init), "end fault:" ++ f.name)
   | some (.op o) => let (st', sst', line) := runOp s.1 s.2 o; ((st', sst'), line)
   | some (.cmp r t) => (s, cmpLine s.1 r t)
   | some (.obs r) => (s, obsLine s.1 r)
